@@ -360,7 +360,10 @@ def judge_c14(case, res):
     for k, label in (("eqvals_sol", "equations"), ("ieqvals_sol", "initial equations")):
         v = post[k]
         if isinstance(v, dict):
-            return ("free-symbol", "remaining %s refer to undeclared symbol %s" % (label, v.get("unknown_symbol")))
+            cyc = elim_on(case) and has_cycle(case["meta"].get("elim_graph", {}))
+            return (TAG_FREE if cyc else "free-symbol",
+                    "remaining %s refer to %s, which is no longer a variable of the simplified model"
+                    % (label, v.get("unknown_symbol")))
         bad = [i for i, x in enumerate(v) if fr(x) is None or fr(x) != 0]
         if bad:
             return ("solution-lost", "the original solution does not satisfy simplified %s #%s (residual %s)"
@@ -532,12 +535,12 @@ def build_cases(ctx):
     except OSError:
         pass
     n_corpus = len(cases)
-    n_models = ctx.scaled(60, 260)
-    per = ctx.scaled(10, 24)
+    n_models = ctx.scaled(60, 150)
+    per = ctx.scaled(10, 16)
     full = all_option_sets()
     for mi in range(n_models):
         mdl = gen_model(rng, big=(mi % 5 == 0))
-        if ctx.tier == "thorough" and mi < 24:
+        if ctx.tier == "thorough" and mi < 8:
             osets = full                      # every combination of the modelled options
         else:
             osets = [gen_options(rng) for _ in range(per - 2)]
@@ -551,7 +554,7 @@ def build_cases(ctx):
     # oracle-only stream: options outside the modelled set (preconditions of the property respected:
     # no reduce_affine_expression on non-affine models, no factor_and_simplify with zero factors)
     extra = []
-    for _ in range(ctx.scaled(20, 120)):
+    for _ in range(ctx.scaled(20, 100)):
         mdl = gen_model(rng)
         o = gen_options(rng)
         o[rng.choice(["resolve_parameter_values", "expand_vectors", "factor_and_simplify_equations"])] = True
@@ -652,7 +655,7 @@ def shared_run(ctx, judge, pid):
     ctx.cov["rule"] = ("%d generated models with a constructed unique solution x option sets (%d cases in the "
                        "modelled option set, %d oracle-only cases with an unmodelled option, corpus %d); "
                        "non-trivial = simplify() removed at least one unknown; distinct by (model text, options)"
-                       % (ctx.scaled(60, 260), len(cases), len(extra), n_corpus))
+                       % (ctx.scaled(60, 150), len(cases), len(extra), n_corpus))
     ctx.cov["samples"] = [{"text": cases[n_corpus]["text"], "options": cases[n_corpus]["options"]},
                           {"text": cases[-1]["text"], "options": cases[-1]["options"]}]
     ctx.notes["input_distribution"] = {"mechanisms": kinds, "options_true": optc, "simplified": n_ok,
